@@ -8,30 +8,35 @@ MATCH = r"match_node_with_env"
 OPS_DECIDED_C04 = "frame law on trait Matcher (None => env unchanged; Some => env exactly the reference env) proved for &T, MatchAll, MatchNone, Op, Or, Not, And, All, Any"
 PROPS = {
     "C01": {
-        "units": [("ops", KINDS), ("rule_core", KINDS + "|do_match|with_")],
+        "units": [("ops", KINDS), ("rule_core", KINDS + "|do_match|with_"), ("rule", KINDS)],
         "kani": [],
         "decided": ["potential_kinds of every matcher in ops.rs/matcher.rs over-approximates the kinds of nodes it can match (trait-level ensures); All/Any cached kinds sound (type invariant established by new via compute_kinds)"],
         "not_decided": ["run.rs/scan.rs wiring, injected languages, ordering across files"],
         "assumptions": [],
     },
     "C04": {
-        "units": [("ops", MATCH), ("rule_core", MATCH + "|do_match")],
+        "units": [("ops", MATCH), ("rule_core", MATCH + "|do_match"), ("rule", MATCH + "|match_and_add_label")],
         "kani": [],
         "decided": [OPS_DECIDED_C04],
         "not_decided": ["relational rules / ReferentRule / StopBy::find (closures capturing &mut env): frame assumed"],
         "assumptions": [],
     },
     "C05": {
-        "units": [("ops", MATCH)],
-        "kani": [],
+        "units": [("ops", MATCH), ("rule", MATCH + "|match_and_add_label")],
+        "kani": [K("config", "is_matched_witness", "An+B: when is_matched accepts index i, n=(i-B)/A is >= 0 and A*n+B == i (i32 x i32 x u32, loop-free)", complete=True),
+                 K("config", "numeric_position_exact", "numeric nthChild position selects exactly that 1-based index; values beyond i32 are rejected, not truncated", complete=True),
+                 K("config", "parse_an_b_len4", "parse_an_b vs reference An+B grammar", bound="strings over {9,1,n,+,-,space}, length <= 4"),
+                 K("config", "parse_an_b_len7", "parse_an_b vs reference An+B grammar", bound="strings over {9,1,n,+,-,space}, length <= 7", tier="thorough")],
         "decided": ["all = left fold threading env on the same node; any = first alternative from the original env; not = negation binding nothing; and/or as documented"],
         "not_decided": ["inside/has/precedes/follows, stopBy, field (closures + tree-sitter cursors)"],
         "assumptions": [],
     },
     "C10": {
-        "units": ["source"],
+        "units": [("source", r"position_for_offset|accept_edit"), "edit"],
         "kani": [],
-        "decided": ["position_for_offset(input, o) == (count of '\\n' in input[..o], bytes since the last '\\n') for every input and offset"],
+        "decided": ["position_for_offset(input, o) == (count of '\\n' in input[..o], bytes since the last '\\n') for every input and offset",
+                    "String::accept_edit: text == old[..p] ++ ins ++ old[p+d..] and the six InputEdit fields equal the protocol values",
+                    "perform_edit applies the edit to the old tree exactly once; Root::do_edit satisfies the precondition of the incremental parse (one edit, right descriptor) and leaves a clean tree for the spliced text"],
         "not_decided": ["tree-sitter re-parse with a correctly edited old tree equals a fresh parse (assumed contract of the dependency)"],
         "assumptions": ["tree_sitter::Point is a plain (row, column) carrier"],
     },
